@@ -261,6 +261,11 @@ MUTANTS.setdefault('C10', []).extend([
     ('ovl-reserved-number-ignored', _OI, "            Some(v) => Ok(*v),", "            Some(_v) => self.alloc_unique_inode(),"),
 ])
 
+# overlay RENAME (unit ovl_ops, the frame every operation has: no lower layer is touched; killed by `ovl_ops.rename.upper`)
+MUTANTS.setdefault('C10', []).append(
+    ('ovl-rename-in-lower-layer', 'src/overlayfs/sync_io.rs', "        Err(Error::from_raw_os_error(libc::EXDEV))\n    }\n\n    fn mknod(",
+     "        if let Some(l) = self.lower_layers.first() {\n            return l.rename(_ctx, _olddir, _odlname, _newdir, _newname, _flags);\n        }\n        Err(Error::from_raw_os_error(libc::EXDEV))\n    }\n\n    fn mknod("))
+
 # the Reader side and the virtio-fs constructors / wrappers (unit readerrd; proposed and tried by the sub-agent that built it)
 _VV = 'src/transport/virtiofs/mod.rs'
 MUTANTS.setdefault('C04', []).extend([
